@@ -141,7 +141,11 @@ def judge(res, sig, what, d, truth, out, mef_given, mef_channels, statistic, one
             ref = FlowCal.mef.fit_beads_autofluorescence(np.array([true_stats[j] for j in kept]), np.array([given[j] for j in kept]))
             tf = out.transform_fxn
             pd_ = np.tile(probe.reshape(-1, 1), (1, d.shape[1]))
-            got = np.asarray(tf(make_probe(d, pd_), ch))[:, names.index(ch)]
+            try:
+                got = np.asarray(tf(make_probe(d, pd_), ch))[:, names.index(ch)]
+            except Exception as e:
+                res.violation(sig + ':transformation-raises', '%s: the returned transformation applied to channel %s raised %s: %s' % (what, ch, type(e).__name__, e), one)
+                return None
             want = np.asarray(ref[0](probe), dtype=float)
             if not np.allclose(got, want, rtol=1e-9, atol=0):
                 res.violation(sig + ':fit-identity', '%s: the transformation of channel %s differs from the fit to the kept statistics/values' % (what, ch), one)
@@ -195,16 +199,31 @@ def truth_law(truth, ci, one):
     return truth['laws'][ci]
 
 
-def run_pipeline(d, truth, mef_given, mef_channels, clustering_channels, statistic, clustering_fxn=None, seed=0):
+def run_pipeline(d, truth, mef_given, mef_channels, clustering_channels, statistic, clustering_fxn=None, seed=0, list_form=False, selection='default'):
     import FlowCal
     kw = {}
     if clustering_fxn is not None:
         kw['clustering_fxn'] = clustering_fxn
+    if selection == 'none':
+        kw['selection_fxn'] = None
     np.random.seed(seed)
-    return FlowCal.mef.get_transform_fxn(
-        d, mef_given if len(mef_channels) > 1 else mef_given[0], mef_channels if len(mef_channels) > 1 else mef_channels[0],
-        clustering_channels=clustering_channels, statistic_fxn=FlowCal.stats.median if statistic == 'median' else FlowCal.stats.mean,
+    # the caller's own containers: handed in, and changed by the caller after the call (the returned transformation and the reported
+    # outcome must not depend on what the caller does with its lists afterwards)
+    c_values = [list(r) for r in mef_given]
+    c_channels = list(mef_channels)
+    c_cluster = list(clustering_channels) if clustering_channels is not None else None
+    as_lists = len(mef_channels) > 1 or list_form
+    out = FlowCal.mef.get_transform_fxn(
+        d, c_values if as_lists else c_values[0], c_channels if as_lists else c_channels[0],
+        clustering_channels=c_cluster, statistic_fxn=FlowCal.stats.median if statistic == 'median' else FlowCal.stats.mean,
         full_output=True, **kw)
+    for r in c_values:
+        r[:] = [1.0 + i for i in range(len(r))][::-1]
+    c_channels.reverse()
+    c_channels[0:1] = ['FSC-H']
+    if c_cluster:
+        c_cluster[:] = ['SSC-H']
+    return out
 
 
 # ---------------------------------------------------------------------------------------
@@ -223,13 +242,16 @@ def layer_a_cases(tier):
             ('cluster', ['mef', 'one', 'all-fl', 'with-scatter']),
             ('statistic', ['median', 'mean']),
             ('order', ['shuffled', 'sorted', 'reversed', 'interleaved']),
-            ('blank', [False, True])]
+            ('blank', [False, True]),
+            ('selection', ['default', 'none'])]          # 'none': selection_fxn=None (documented: no population selection procedure)
     bound = 2 if tier == 'quick' else 3
     # the permutation dimension is large: complete in combination with <= bound-1 other deviations
     group = {}
     for c in explore.deviations(dims, bound):
         if tier == 'thorough' and c['_dev'] == 3 and c['perm'] != 0 and c['perm'] % 7:
             continue      # thorough, 3 deviations: every 7th permutation (stated in the evidence); bound 2 is complete
+        if c['selection'] == 'none' and c['saturated'] is not None:
+            continue      # without the selection step a saturated population is not left out (by request); unknown values still are
         key = (c['saturated'], c['nch'], c['order'], c['blank'], c['decades'])
         group.setdefault(key, []).append(c)
     for key, lst in group.items():
@@ -264,14 +286,15 @@ def run_a(c, res):
             mef_given.append(row)
         cl = {'mef': None, 'one': [mef_channels[0]], 'all-fl': list(truth['fl_names']), 'with-scatter': ['FSC-H', 'SSC-H'] + mef_channels}[it['cluster']]
         one = dict(kind='A', k=k, items=[it])
-        what = 'get_transform_fxn(stub clustering, label permutation %s, unknown %s as %s, saturated %s, %d channel(s), clustering on %s, %s, events %s, blank %s)' % (
-            pi, list(it['unknown']), it['unk_form'], it['saturated'], it['nch'], it['cluster'], it['statistic'], it['order'], it['blank'])
+        what = 'get_transform_fxn(stub clustering, label permutation %s, unknown %s as %s, saturated %s, %d channel(s), clustering on %s, %s, events %s, blank %s, selection %s)' % (
+            pi, list(it['unknown']), it['unk_form'], it['saturated'], it['nch'], it['cluster'], it['statistic'], it['order'], it['blank'], it.get('selection', 'default'))
         n_known = k - len(it['unknown'])
         try:
             with warnings.catch_warnings():
                 warnings.simplefilter('ignore')
                 out = run_pipeline(d, truth, mef_given, mef_channels, cl, it['statistic'],
-                                   clustering_fxn=lambda data, n_clusters, **kw: list(stub_labels))
+                                   clustering_fxn=lambda data, n_clusters, **kw: list(stub_labels), list_form=it['perm'] % 2 == 1,
+                                   selection=it.get('selection', 'default'))
         except Exception as e:
             nsat = 1 if it['saturated'] else 0
             if n_known - nsat < 3 and isinstance(e, ValueError):
@@ -283,7 +306,7 @@ def run_a(c, res):
         if s is None:
             continue
         # identical outcome for every label permutation / clustering-channel choice (same sample, same unknowns, same statistic)
-        key = (it['unknown'], it['statistic'], it.get('unk_scope'), it['nch'])
+        key = (it['unknown'], it['statistic'], it.get('unk_scope'), it['nch'], it.get('selection', 'default'))
         canon = [(ch, kept, rfi, mef) for ch, kept, rfi, mef, params in s]
         if key in base and base[key][0] != canon:
             res.violation('A:permutation-dependent', '%s: outcome differs from the one for %s' % (what, base[key][1]), one)
